@@ -373,7 +373,7 @@ func concurrentProperty(t *rapid.T, rec *vstats.Recorder, storagePrefix string) 
 	repeats := make([]int, ng)
 	for i := range patterns {
 		patterns[i] = rapid.SliceOfN(rapid.IntRange(0, nkeys-1), 1, 24).Draw(t, "lookupKeys")
-		repeats[i] = rapid.IntRange(8, 48).Draw(t, "repeats")
+		repeats[i] = rapid.IntRange(32, 160).Draw(t, "repeats")
 		c.Add("goroutine", repeats[i])
 		for _, ki := range patterns[i] {
 			c.Add(ki)
